@@ -73,7 +73,7 @@ pub const CHECKS: &[CheckDef] = &[
     CheckDef { id: "C05", sim: "board", sim_id: 5, quick_runs: 40000, thorough_runs: 800000, level: "exploration", rule: BOARD_RULE, assumptions: BOARD_ASSUME, real: BOARD_REAL, stubbed: BOARD_STUB, exit_on_violation: false },
     CheckDef { id: "C06", sim: "board", sim_id: 6, quick_runs: 60000, thorough_runs: 1500000, level: "exploration", rule: BOARD_RULE, assumptions: BOARD_ASSUME, real: BOARD_REAL, stubbed: BOARD_STUB, exit_on_violation: false },
     CheckDef { id: "C12", sim: "board", sim_id: 12, quick_runs: 60000, thorough_runs: 1500000, level: "exploration", rule: BOARD_RULE, assumptions: BOARD_ASSUME, real: BOARD_REAL, stubbed: BOARD_STUB, exit_on_violation: false },
-    CheckDef { id: "C13", sim: "board", sim_id: 13, quick_runs: 60000, thorough_runs: 1500000, level: "exploration", rule: BOARD_RULE, assumptions: BOARD_ASSUME, real: BOARD_REAL, stubbed: BOARD_STUB, exit_on_violation: false },
+    CheckDef { id: "C13", sim: "board", sim_id: 13, quick_runs: 60000, thorough_runs: 1500000, level: "exploration", rule: BOARD_RULE, assumptions: BOARD_ASSUME, real: BOARD_REAL, stubbed: BOARD_STUB, exit_on_violation: true },
     CheckDef { id: "C14", sim: "board", sim_id: 14, quick_runs: 40000, thorough_runs: 800000, level: "exploration", rule: BOARD_RULE, assumptions: BOARD_ASSUME, real: BOARD_REAL, stubbed: BOARD_STUB, exit_on_violation: false },
 ];
 
@@ -117,6 +117,9 @@ impl Ctx {
 
 pub fn gen_plan(def: &CheckDef, ctx: &Ctx, seed: u64, thorough: bool) -> Plan {
     match def.sim {
+        // C13 also has an engine share: `position ... moves` lists with a bad move at index j must
+        // leave the engine on its previous position (read back at the next idle point)
+        "board" if def.id == "C13" && seed % 16 == 0 => Plan::Engine(enginesim::gen_plan("C13", seed, thorough, &ctx.pool)),
         "board" => Plan::Board(boardsim::gen_plan(def.id, seed, thorough, &ctx.pool)),
         "engine" => Plan::Engine(enginesim::gen_plan(def.id, seed, thorough, &ctx.pool)),
         "line" => {
